@@ -108,7 +108,7 @@ func newLike(m rpc.VTMarshaler) rpc.VTMarshaler {
 // byte offset, size bounds and short writes.
 func runC38(t *testing.T, prop string, seed uint64, tier string, replay *hcommon.Replay) hcommon.RunResult {
 	r := simrt.NewRand(simrt.Mix(seed, 38))
-	p := &c38Plan{Msg: pick(r, "node", "transfer", "simple"), Size: pick(r, 0, 1, 7, 64, 300, 5000), Trail: pick(r, 0, 1, 9, 100), CutAt: -1, WLimit: -1}
+	p := &c38Plan{Msg: pick(r, "node", "transfer", "simple"), Size: pick(r, 0, 1, 7, 64, 300, 5000, 5000, 65535, 65536, 70000, 100001, 150000, 300000), Trail: pick(r, 0, 1, 9, 100, 70000), CutAt: -1, WLimit: -1}
 	if replay != nil && len(replay.Plan) > 0 {
 		p = &c38Plan{}
 		json.Unmarshal(replay.Plan, p)
